@@ -195,6 +195,9 @@ func TestC14(t *testing.T) {
 			dropShareAfter = faultBlocks - 1
 		}
 		defer func() { dropShareAfter = -1 }()
+		drawRolledBack(t, blocks)
+		rolledBackMain := rolledBackAfter
+		defer func() { rolledBackAfter, restartAfter = nil, nil }()
 		for b := 0; b < blocks; b++ {
 			curBlock = b
 			if b == unlockAt {
@@ -212,13 +215,22 @@ func TestC14(t *testing.T) {
 			r.Model.Block(modelFault, r.ImplLeft())
 			r.CheckBooks(t)
 			r.CheckModel(t)
+			if restartAfter != nil && restartAfter[b] {
+				// the node restarts (also while payouts are still owed)
+				r.RestartNode()
+			}
+			if rolledBackAfter != nil && rolledBackAfter[b] {
+				if r.RolledBackProposal(t, r.Model.Cfg) {
+					rolledBackProposals++
+				}
+			}
 			if b == dropShareAfter {
 				for i := range cfg.Subs {
 					if n := len(cfg.Subs[i].Shares); n > 0 {
 						nc := DCfg{Subs: append([]DSub{}, cfg.Subs...)}
 						k := dropShareIdx % n
 						nc.Subs[i].Shares = append(append([]DShare{}, cfg.Subs[i].Shares[:k]...), cfg.Subs[i].Shares[k+1:]...)
-						if res := RunMsg(r.W.App, r.Ctx, &distrtypes.MsgUpdateParams{Authority: GovAuthority(), SubDistributors: nc.Build().SubDistributors}); res.OK() {
+						if written, _ := r.Gov(&distrtypes.MsgUpdateParams{Authority: GovAuthority(), SubDistributors: nc.Build().SubDistributors}); written {
 							r.Model.Cfg = nc
 							sharesDropped++
 						}
@@ -276,6 +288,14 @@ func TestC14(t *testing.T) {
 		if sharesDropped > 0 {
 			cl["named_share_removed_while_coins_are_owed"] = true
 		}
+		if rolledBackProposals > 0 {
+			cl["proposal_replanning_the_configuration_rolled_back"] = true
+		}
+		_ = rolledBackMain
+		if r.Restarts > 0 {
+			cl["node_restarted_between_blocks"] = true
+		}
+		rolledBackAfter, restartAfter = nil, nil // the fault-free twin runs without
 		if lockedSrc && unlockAt >= 0 {
 			cl["locked_source_unlocks_in_the_suffix"] = true
 		}
